@@ -124,6 +124,9 @@ def run(m, tier):
         f.rule = "C07.R6"
     results.append(r6)
     results.append(order_rules.index_guard_rule(m, "C07.R7"))
+    r8 = rr.rule_semicolon(m, "C07.R8")
+    r8.title = "no ';'-separated source line is dropped on the way to the parser (an erroneous statement on it would go unreported): " + r8.title
+    results.append(r8)
     expl = ("Decides narrow structural clauses of C07: wherever a message quotes a source line it is source_lines[linecount - 1] of the "
             "same reader whose linecount is printed; every FortranSyntaxError is raised with the function's reader parameter; the "
             "physical line counter is moved by exactly one per line taken/given back on every path and item spans are tied to it "
